@@ -144,7 +144,7 @@ func refEncode(t asetypes.DataType, l int64, v interface{}) ([]byte, bool) {
 		}
 		return []byte(x), true
 	case *asetypes.Decimal:
-		i := x.Int()
+		i := decIntPure(x)
 		switch t {
 		case asetypes.MONEY, asetypes.SHORTMONEY, asetypes.MONEYN:
 			// two's complement of the count; high word first
@@ -330,12 +330,12 @@ func refDecode(t asetypes.DataType, bs []byte) (v interface{}, tickNs int64, ok 
 		if n == 8 && t != asetypes.SHORTMONEY {
 			c := int64(uint64(le.Uint32(bs[0:]))<<32 | uint64(le.Uint32(bs[4:])))
 			d, _ := asetypes.NewDecimal(asetypes.ASEMoneyPrecision, asetypes.ASEMoneyScale)
-			decInstall(d, big.NewInt(c))
+			decInstallPure(d, big.NewInt(c))
 			return d, 0, true
 		}
 		if n == 4 && t != asetypes.MONEY {
 			d, _ := asetypes.NewDecimal(asetypes.ASEShortMoneyPrecision, asetypes.ASEShortMoneyScale)
-			decInstall(d, big.NewInt(int64(int32(le.Uint32(bs)))))
+			decInstallPure(d, big.NewInt(int64(int32(le.Uint32(bs)))))
 			return d, 0, true
 		}
 	case asetypes.DECN, asetypes.NUMN:
@@ -345,7 +345,7 @@ func refDecode(t asetypes.DataType, bs []byte) (v interface{}, tickNs int64, ok 
 				i.Neg(i)
 			}
 			d, _ := asetypes.NewDecimal(asetypes.ASEDecimalDefaultPrecision, asetypes.ASEDecimalDefaultScale)
-			decInstall(d, i)
+			decInstallPure(d, i)
 			return d, 0, true
 		}
 	case asetypes.DATE, asetypes.DATEN:
@@ -549,14 +549,14 @@ func c05Oracle(line, out string) string {
 		if !strings.HasPrefix(out, "ok ") {
 			return clause
 		}
-		got, okg := valParse(out[3:])
+		got, okg := valParsePure(out[3:])
 		if !okg {
 			return clause
 		}
 		switch w := want.(type) {
 		case *asetypes.Decimal:
 			g, okd := got.(*asetypes.Decimal)
-			if !okd || g.String() == "<nil>" || g.Int().Cmp(w.Int()) != 0 {
+			if !okd || decIntPure(g) == nil || decIntPure(g).Cmp(decIntPure(w)) != 0 {
 				return clause
 			}
 			if t != asetypes.DECN && t != asetypes.NUMN && (g.Precision != w.Precision || g.Scale != w.Scale) {
@@ -733,7 +733,7 @@ func c05Gen(tier string, rng *rand.Rand, emit func(Case)) {
 	// encode direction on the C04 value domains; decode direction on the reference encoding of the same values
 	valEachValue(tier, rng, func(t asetypes.DataType, l int64, tok, kind string) {
 		emit(Case{Line: fmt.Sprintf("val enc %02x %d %s", byte(t), l, tok), Kind: "enc-" + kind})
-		if v, ok := valParse(tok); ok && valValueInDomain(t, l, v) {
+		if v, ok := valParsePure(tok); ok && valValueInDomain(t, l, v) {
 			if kind == "int16" || kind == "date" { // dense families: decode a part
 				if rng.Intn(4) != 0 {
 					return
@@ -803,7 +803,14 @@ func c05Gen(tier string, rng *rand.Rand, emit func(Case)) {
 	for _, y := range years {
 		for m := 1; m <= 12; m++ {
 			for _, d := range []int{1, valDaysIn(y, m)} {
-				for _, tod := range [][4]int{{0, 0, 0, 0}, {23, 59, 59, 999999999}, {rng.Intn(24), rng.Intn(60), rng.Intn(60), rng.Intn(1000000000)}} {
+				tods := [][4]int{{0, 0, 0, 0}, {23, 59, 59, 999999999}, {rng.Intn(24), rng.Intn(60), rng.Intn(60), rng.Intn(1000000000)}}
+				if d == 1 && (m == 1 || m == 7) {
+					// every part of the time of day zero while the others are not (a helper that adds the parts
+					// one by one under "if part != 0" has a branch per combination)
+					tods = append(tods, [][4]int{{0, 0, 0, 1000}, {0, 0, 0, 500000000}, {0, 0, 0, 999999000}, {0, 0, 1, 0}, {0, 1, 0, 0}, {1, 0, 0, 0},
+						{0, 0, 59, 1000}, {0, 59, 0, 1000}, {23, 0, 0, 1000}, {0, 59, 59, 0}, {23, 59, 0, 0}, {23, 0, 59, 999999000}}...)
+				}
+				for _, tod := range tods {
 					args := fmt.Sprintf("%d %d %d %d %d %d %d", y, m, d, tod[0], tod[1], tod[2], tod[3])
 					emit(Case{Line: "cal dfd " + args, Kind: "cal-dfd"})
 					emit(Case{Line: "cal t2us " + args, Kind: "cal-t2us"})
